@@ -534,4 +534,4 @@ def s7(ck: Check) -> None:
                   f"`{e.nid}` is marked expanded with only the successors copied from one source-SCC sub-diagram, but it is "
                   f"marked attractor-free only conditionally (path reaches {esc}): when the sub-diagram node has a "
                   f"motif-avoidant attractor, the seeds later computed for `{e.nid}` are also found in other nodes that are "
-                  f"not among its partial successors (one attractor, two seeds)")
+                  f"not among its partial successors (one attractor, two seeds)", key=f"mark expanded: {e.diag}/{e.nid}")
